@@ -323,6 +323,12 @@ class FakeSock(object):
     return None
 
   def send(self, data, flags=0):
+    # a scripted list of "how many bytes the kernel takes this time" models short writes of send()
+    script = getattr(self.net, 'send_script', None)
+    if script:
+      k = max(1, min(script.pop(0), len(data)))
+      self.sendall(bytes(data[:k]))
+      return k
     self.sendall(data)
     return len(data)
 
